@@ -197,6 +197,18 @@ theorem total_stress_vector_rotates (p : GenP ℝ) (θ0 : ℝ) (om df : List ℝ
       (totalStressVec p (uniformGrid (N := N) θ0 om df) kin (fieldOf (rotField k rows)) (turnWind k w) z0) :=
   totalStressVec_rot p θ0 om df kin rows w z0 k
 
+/-- … so, whenever both are defined and the stress does not vanish, the direction of the total stress of the rotated input
+is the direction of the original plus the rotation angle (as angles modulo a full turn) -/
+theorem total_stress_direction_shifts (p : GenP ℝ) (θ0 : ℝ) (om df : List ℝ) (kin : Kin ℝ) (rows : List (Fin N → ℝ))
+    (w : Wind ℝ) (z0 : ℝ) (k : Fin N) (v v' : ℝ × ℝ)
+    (h : totalStressVec p (uniformGrid (N := N) θ0 om df) kin (fieldOf rows) w z0 = some v)
+    (h' : totalStressVec p (uniformGrid (N := N) θ0 om df) kin (fieldOf (rotField k rows)) (turnWind k w) z0 = some v')
+    (hv : v.1 ≠ 0 ∨ v.2 ≠ 0) :
+    dirAngle v'.1 v'.2 = dirAngle v.1 v.2 + ((((k : ℕ) * dθ N) * Real.pi / 180 : ℝ) : Real.Angle) := by
+  have hr := totalStressVec_rot p θ0 om df kin rows w z0 k
+  rw [h, h'] at hr
+  exact IsRot.dirAngle hr hv
+
 theorem total_stress_is_magnitude_and_direction (p : GenP ℝ) (g : Grid ℝ) (kin : Kin ℝ) (E : List (List ℝ)) (w : Wind ℝ) (z0 : ℝ)
     (hu : (frictionVelocity p w z0 == 0) = false) :
     totalStress rfloor p g kin E w z0 = (totalStressVec p g kin E w z0).map fun v =>
